@@ -213,6 +213,10 @@ class BaseSamples:
             x = np.stack([dictionary[p] for p in parameters], axis=-1)
             for p in parameters:
                 dictionary.pop(p, None)
+        # to_dict also emits derived fields (e.g. weights) that are not
+        # constructor arguments; they are recomputed on construction
+        init_names = {f.name for f in fields(cls) if f.init}
+        dictionary = {k: v for k, v in dictionary.items() if k in init_names}
         return cls(x=x, parameters=parameters, **dictionary)
 
     def to_dataframe(self, include: list[str] | None = None) -> "pd.DataFrame":
